@@ -330,19 +330,107 @@ def _err(e):
     return "ERR:" + type(e).__name__
 
 
-class World:
-    """Executes protocol lines on the real objects."""
+def _spell_int(x, spell, index=False):
+    """The same integer in another spelling (Python int / NumPy scalars of several widths).  Unsigned widths only for
+    slice and index arguments >= 1 (an unsigned position minus a larger one wraps by NumPy's own rules)."""
+    import numpy as np
+    k = spell % 7
+    if k == 0:
+        return int(x)
+    if k == 1:
+        return np.int64(x)
+    if k == 2:
+        return np.int32(x)
+    if k == 3:
+        return np.int16(x)
+    if k == 4:
+        return np.int8(x) if -100 <= x <= 100 else np.int16(x)
+    if k == 5:
+        return np.uint8(x) if index and 1 <= x <= 200 else np.int64(x)
+    return np.uint32(x) if index and x >= 1 else np.int32(x)     # (uint64 with a signed start promotes to float64 in NumPy)
 
-    def __init__(self):
+
+def _spell_value(letters, spell):
+    """A sequence value for `aseq[...] = value` in the spellings Sequence.__setitem__ accepts."""
+    import numpy as np
+    from biotite.sequence import NucleotideSequence
+    k = spell % 7
+    if k == 0:
+        return NucleotideSequence(letters, ambiguous=True)
+    if k == 1:
+        return NucleotideSequence(letters)
+    if k == 2:
+        return letters
+    if k == 3:
+        return list(letters)
+    codes = [LETTERS.index(c) for c in letters]
+    if k == 4:
+        return np.array(codes, dtype=np.uint8)
+    if k == 5:
+        arr = np.zeros(2 * len(codes), dtype=np.int64)      # strided, read-only, another width
+        arr[::2] = codes
+        arr = arr[::2]
+        arr.setflags(write=False)
+        return arr
+    return np.array(codes, dtype=">i2") if codes else np.array([], dtype=np.uint8)   # byte-swapped
+
+
+class World:
+    """Executes protocol lines on the real objects.  `spell` selects how the same arguments are spelled (Python / NumPy
+    scalars, list / tuple / set containers, defaults left out where the value is the default); the model never sees it."""
+
+    def __init__(self, spell=0):
         self.cur = None
         self.cp = None
+        self.spell = spell
+
+    def I(self, x, index=False):
+        return None if x is None else _spell_int(x, self.spell, index)
+
+    def loc(self, l):
+        from biotite.sequence import Location
+        st = Location.Strand.FORWARD if l[2] == "+" else Location.Strand.REVERSE
+        if self.spell % 2 and l[2] == "+" and l[3] == 0:
+            return Location(self.I(l[0]), self.I(l[1]))                       # defaults
+        if self.spell % 3 == 1:
+            return Location(first=self.I(l[0]), last=self.I(l[1]), defect=Location.Defect(l[3]), strand=st)
+        return Location(self.I(l[0]), self.I(l[1]), st, Location.Defect(l[3]))
+
+    def feat(self, f):
+        from biotite.sequence import Feature
+        locs = [self.loc(l) for l in f[2]]
+        cont = (list, tuple, set, frozenset)[self.spell % 4](locs)
+        qual = {"q": str(f[1])}
+        ft = Feature("k%d" % f[0], cont, qual)
+        qual["q"] = "77"                    # the arguments stay the caller's: editing them afterwards changes nothing
+        if isinstance(cont, (list, set)):
+            cont.clear()
+        return ft
+
+    def aseq(self, start, letters, annot):
+        from biotite.sequence import AnnotatedSequence, Annotation, NucleotideSequence
+        feats = [self.feat(f) for f in annot]
+        k = self.spell % 5
+        cont = (list, tuple, set, frozenset, iter)[k](feats)
+        ann = Annotation(cont) if (feats or k) else Annotation()
+        if isinstance(cont, (list, set)):
+            cont.clear()
+        letters = "" if letters == "_" else letters
+        if self.spell % 3 == 1 and set(letters) <= set("ACGT"):
+            seq = NucleotideSequence(letters, ambiguous=True)
+        elif self.spell % 3 == 2:
+            seq = NucleotideSequence(list(letters.lower()))
+        else:
+            seq = NucleotideSequence(letters)
+        if start == 1 and self.spell % 2:
+            return AnnotatedSequence(ann, seq)                                 # default sequence_start
+        return AnnotatedSequence(ann, seq, self.I(start))
 
     def step(self, op):
-        from biotite.sequence import NucleotideSequence
         w = op.split()
         try:
             if w[0] == "new":
-                self.cur = _mk_aseq(int(w[1]), w[2], _parse_annot(w[3]))
+                self.cur = self.aseq(int(w[1]), w[2], _parse_annot(w[3]))
                 self.cp = None
                 return "ok"
             if w[0] == "show":
@@ -351,26 +439,35 @@ class World:
                 return "ok " + _canon_aseq(self.cp)
             if w[0] == "aslice":
                 a, b = (None if x == "-" else int(x) for x in w[1:3])
-                return "ok " + _canon_annot(self.cur.annotation[a:b])
+                return "ok " + _canon_annot(self.cur.annotation[self.I(a, True):self.I(b, True)])
             if w[0] == "slice":
                 a, b = (None if x == "-" else int(x) for x in w[1:3])
-                return "ok " + _canon_aseq(self.cur[a:b])
+                return "ok " + _canon_aseq(self.cur[self.I(a, True):self.I(b, True)])
             if w[0] == "int":
-                return "ok " + str(self.cur[int(w[1])])
+                return "ok " + str(self.cur[self.I(int(w[1]), True)])
             if w[0] == "getf":
                 f = _parse_feat(w[1])
                 if _has_ties(f[2]):
                     return "unmodelled"
-                return "ok " + _canon_seq(self.cur[_mk_feat(f)])
+                return "ok " + _canon_seq(self.cur[self.feat(f)])
             if w[0] in ("setf", "cp_setf"):
                 f = _parse_feat(w[1])
                 if _has_ties(f[2]):
                     return "unmodelled"
                 tgt = self.cur if w[0] == "setf" else self.cp
-                tgt[_mk_feat(f)] = NucleotideSequence("" if w[2] == "_" else w[2], ambiguous=True)
+                tgt[self.feat(f)] = _spell_value("" if w[2] == "_" else w[2], self.spell)
+                return "ok"
+            if w[0] == "setslice":
+                a, b = (None if x == "-" else int(x) for x in w[1:3])
+                self.cur[self.I(a, True):self.I(b, True)] = _spell_value("" if w[3] == "_" else w[3], self.spell)
                 return "ok"
             if w[0] == "revcomp":
-                self.cur = self.cur.reverse_complement(int(w[1]))
+                if w[1] == "-":
+                    self.cur = self.cur.reverse_complement()
+                elif self.spell % 2:
+                    self.cur = self.cur.reverse_complement(sequence_start=self.I(int(w[1])))
+                else:
+                    self.cur = self.cur.reverse_complement(self.I(int(w[1])))
                 return "ok " + _canon_aseq(self.cur)
             if w[0] == "copy":
                 self.cp = self.cur.copy()
@@ -379,8 +476,10 @@ class World:
                 except Exception:
                     return "ERR:unusable-copy"
                 return "ok " + ("true" if self.cp == self.cur else "false")
-            if w[0] == "cp_setint":
-                self.cp[int(w[1])] = w[2]
+            if w[0] in ("setint", "cp_setint"):
+                import numpy as np
+                tgt = self.cur if w[0] == "setint" else self.cp
+                tgt[self.I(int(w[1]), True)] = np.str_(w[2]) if self.spell % 2 else w[2]
                 return "ok"
             if w[0] in ("mut_qual", "cp_mut_qual"):
                 # edit the dictionaries handed out by Feature.qual (an accessor result, never the feature itself)
@@ -396,15 +495,57 @@ class World:
                     _try(lambda: f.locs.clear())
                 return "ok"
             if w[0] == "cp_addfeat":
-                self.cp.annotation.add_feature(_mk_feat(_parse_feat(w[1])))
+                self.cp.annotation.add_feature(self.feat(_parse_feat(w[1])))
                 return "ok"
+            if w[0] == "addfeat":
+                ann = self.cur.annotation
+                k = self.spell % 3
+                if k == 0:
+                    ann.add_feature(self.feat(_parse_feat(w[1])))
+                elif k == 1:
+                    ann += self.feat(_parse_feat(w[1]))
+                else:
+                    # `a + f` builds a new annotation and must leave `a` alone; the result then replaces the content
+                    before = _deep(ann)
+                    new = ann + self.feat(_parse_feat(w[1]))
+                    if _deep(ann) != before:
+                        return "ERR:add-mutated-operand"
+                    ann += new
+                return "ok"
+            if w[0] == "iadd":
+                from biotite.sequence import Annotation
+                other = Annotation([self.feat(f) for f in _parse_annot(w[1])])
+                snap = _deep(other)
+                ann = self.cur.annotation
+                ann += other
+                if _deep(other) != snap:
+                    return "ERR:iadd-mutated-operand"
+                other.add_feature(self.feat((96, 96, [(1, 1, "+", 0)])))      # the operand stays independent
+                return "ok"
+            if w[0] == "delfeat":
+                f = self.feat(_parse_feat(w[1]))
+                if self.spell % 2:
+                    del self.cur.annotation[f]
+                else:
+                    self.cur.annotation.del_feature(f)
+                return "ok"
+            if w[0] == "has":
+                return "ok " + ("true" if self.feat(_parse_feat(w[1])) in self.cur.annotation else "false")
+            if w[0] == "count":
+                n = len(self.cur.annotation)
+                if n != len(list(self.cur.annotation)) or n != len(self.cur.annotation.get_features()):
+                    return "ERR:len-iter-mismatch"
+                return f"ok {n}"
+            if w[0] == "range":
+                lo, hi = self.cur.annotation.get_location_range()
+                return f"ok {int(lo)} {int(hi)}"
         except Exception as e:  # noqa: BLE001
             return _err(e)
         return "bad-op"
 
 
 def run_impl(case):
-    w = World()
+    w = World(case.get("spell", 0))
     return [w.step(op) for op in case["ops"]]
 
 
@@ -568,11 +709,116 @@ def _copy_independence(start, letters, annot):
     return v
 
 
+def _construction_checks(x, start, letters, annot):
+    """What was built is what was asked for (whatever the spelling of the arguments), `==` is an equivalence that
+    separates objects differing in one place, and the location ranges are min first / max last."""
+    from biotite.sequence import Location
+    v = []
+    want = (start, letters, _annot_fs(annot))
+    got = (int(x.sequence_start), str(x.sequence), _annot_t(x.annotation))
+    if got != want:
+        v.append(("C13/construct/content", f"built {got}, asked for {want}"))
+        return v
+    same = _mk_aseq(start, letters or "_", annot)
+    if x.annotation != same.annotation or not (x.annotation == same.annotation) or int(x.sequence_start) != start:
+        v.append(("C13/eq/equal-content-unequal", f"{_annot_s(annot)}"))
+    for f in x.annotation:
+        k, q, ls = _feat_t(f)
+        lo, hi = f.get_location_range()
+        if (int(lo), int(hi)) != (min(l[0] for l in ls), max(l[1] for l in ls)):
+            v.append(("C13/feature/location-range", f"{sorted(ls)}: ({lo}, {hi})"))
+        if not (f == f) or f != _mk_feat((k, q, sorted(ls))) or hash(f) != hash(_mk_feat((k, q, sorted(ls)))):
+            v.append(("C13/eq/feature", f"{sorted(ls)}"))
+        for l in f.locs:
+            a, b, st, d = _loc_t(l)
+            for other in ((a - 1, b, st, d), (a, b + 1, st, d), (a, b, "-" if st == "+" else "+", d), (a, b, st, d ^ 1), (a, b, st, d ^ 32)):
+                if l == _mk_loc(other):
+                    v.append(("C13/eq/location-distinct-equal", f"{(a, b, st, d)} == {other}"))
+            if l != _mk_loc((a, b, st, d)) or hash(l) != hash(_mk_loc((a, b, st, d))):
+                v.append(("C13/eq/location", f"{(a, b, st, d)}"))
+            # a feature that differs in one location only must be a different feature
+            alt = [t for t in ls if t != (a, b, st, d)] + [(a - 1, b, st, d)]
+            if (a - 1, b, st, d) not in ls and f == _mk_feat((k, q, alt)):
+                v.append(("C13/eq/feature-distinct-equal", f"{sorted(ls)} == {sorted(alt)}"))
+    if annot:
+        k, q, ls = annot[0]
+        alt = [(k, q + 1, ls)] + list(annot[1:])
+        if _annot_fs(alt) != _annot_fs(annot) and x.annotation == _mk_aseq(start, letters or "_", alt).annotation:
+            v.append(("C13/eq/annotation-distinct-equal", f"{_annot_s(annot)} == {_annot_s(alt)}"))
+    if x == _mk_aseq(start + 1, letters or "_", annot):
+        v.append(("C13/eq/start-ignored", f"start {start} == start {start + 1}"))
+    if letters and set(letters) <= set("ACGT"):
+        other = ("A" if letters[0] != "A" else "C") + letters[1:]
+        y = _rebuild(x)
+        if not (y == x):
+            v.append(("C13/eq/equal-content-unequal", f"rebuilt object != original ({_canon_aseq(x)})"))
+        y.sequence[0] = other[0]
+        if y == x:
+            v.append(("C13/eq/sequence-ignored", f"{letters} == {other}"))
+    return v
+
+
+def _rebuild(x):
+    """A fresh object with the same content, built through the public constructors only."""
+    from biotite.sequence import AnnotatedSequence, Annotation, Feature, Location, NucleotideSequence
+    amb = x.sequence.get_alphabet() == NucleotideSequence.alphabet_amb
+    feats = [Feature(f.key, [Location(int(l.first), int(l.last), l.strand, l.defect) for l in f.locs], dict(f.qual))
+             for f in x.annotation]
+    return AnnotatedSequence(Annotation(feats), NucleotideSequence(str(x.sequence), ambiguous=amb), int(x.sequence_start))
+
+
+_READS = ("show", "aslice", "slice", "int", "getf", "has", "count", "range")
+
+
+def _generic_checks(case):
+    """Two statements that hold for every operation of the API, whatever it computes:
+    (1) a read on the long-lived object (after any history of reads, in-place edits, refused calls) gives what the same
+        read gives on a fresh object built from the same content, and changes nothing;
+    (2) a refused call changes nothing (receiver and copy equal their snapshots).  `aseq[feature] = x` is the one
+        exception the property does not cover: it may have written the locations before the one it refuses; there only
+        'annotation, start, length and every base outside the feature unchanged' is asserted."""
+    w = World(case.get("spell", 0))
+    for op in case["ops"]:
+        name = op.split()[0]
+        if name == "new" or w.cur is None:
+            w.step(op)
+            continue
+        snap = _deep(w.cur)
+        snap_cp = _deep(w.cp) if w.cp is not None else None
+        if name in _READS:
+            fresh = World(0)
+            fresh.cur = _rebuild(w.cur)
+            exp = fresh.step(op)
+            got = w.step(op)
+            if got != exp:
+                yield (f"C13/state/{name}-differs-from-fresh-object", f"{op} after {case['ops'][:6]}…: {got} but a fresh object with the same content gives {exp}")
+            if _deep(w.cur) != snap:
+                yield (f"C13/state/{name}-changed-the-object", f"{op}: {snap} -> {_deep(w.cur)}")
+            continue
+        got = w.step(op)
+        if got.startswith("ERR"):
+            now = _deep(w.cur)
+            if name == "setf":
+                k, q, locs = _parse_feat(op.split()[1])
+                start = snap[0]
+                covered = {p for f, l, _, _ in locs for p in range(f, l + 1)}
+                if not all(start <= f and l < start + len(snap[1]) for f, l, _, _ in locs):
+                    covered = set(range(start, start + len(snap[1])))       # locations leaving the sequence wrap around (numpy)
+                ok = now[0] == snap[0] and now[3] == snap[3] and len(now[1]) == len(snap[1]) and \
+                    all(now[1][i] == snap[1][i] for i in range(len(snap[1])) if start + i not in covered)
+                if not ok:
+                    yield ("C13/refused/setf-changed-outside-the-feature", f"{op} -> {got}: {snap} -> {now}")
+            elif name != "cp_setf" and now != snap:
+                yield (f"C13/refused/{name}-changed-the-object", f"{op} -> {got}: {snap} -> {now}")
+            if name != "cp_setf" and w.cp is not None and _deep(w.cp) != snap_cp:
+                yield (f"C13/refused/{name}-changed-the-copy", f"{op} -> {got}")
+
+
 def oracle(case):
     if not case.get("ops") or case["ops"][0].split()[0] != "new":
         return []
-    v = []
-    w = World()
+    v = list(_generic_checks(case))
+    w = World(case.get("spell", 0))
     # the oracle keeps its own plain-data picture of `cur` (start, letters, annotation), updated from the property
     start = letters = annot = None
     for op in case["ops"]:
@@ -580,6 +826,7 @@ def oracle(case):
         if t[0] == "new":
             start, letters, annot = int(t[1]), ("" if t[2] == "_" else t[2]), _parse_annot(t[3])
             w.step(op)
+            v += _construction_checks(w.cur, start, letters, annot)
             continue
         n = len(letters)
         end = start + n
@@ -675,8 +922,59 @@ def oracle(case):
                     if back != "ok " + x:
                         v.append(("C13/setf/readback", f"aseq[{t[1]}] = {x} then aseq[f] gives {back}"))
                 letters = now
+        elif t[0] in ("addfeat", "iadd", "delfeat", "has", "count", "range"):
+            canon = lambda f: (f[0], f[1], frozenset(f[2]))
+            have = {canon(f) for f in annot}
+            got = w.step(op)
+            if t[0] in ("addfeat", "iadd"):
+                for f in ([_parse_feat(t[1])] if t[0] == "addfeat" else _parse_annot(t[1])):
+                    if canon(f) not in {canon(g) for g in annot}:
+                        annot = annot + [f]
+                if got != "ok":
+                    v.append((f"C13/annotation/{t[0]}", f"{op}: {got}"))
+            elif t[0] == "delfeat":
+                f = _parse_feat(t[1])
+                if canon(f) in have:
+                    annot = [g for g in annot if canon(g) != canon(f)]
+                    if got != "ok":
+                        v.append(("C13/annotation/del_feature-present", f"{op} on {_annot_s(annot)}: {got}"))
+                elif got != "ERR:KeyError":
+                    v.append(("C13/annotation/del_feature-absent", f"{op}: {got}, expected KeyError"))
+            elif t[0] == "has":
+                exp = "ok " + ("true" if canon(_parse_feat(t[1])) in have else "false")
+                if got != exp:
+                    v.append(("C13/annotation/contains", f"{op} on {_annot_s(annot)}: {got}, expected {exp}"))
+            elif t[0] == "count":
+                if got != f"ok {len(have)}":
+                    v.append(("C13/annotation/len", f"len of {_annot_s(annot)}: {got}, expected {len(have)}"))
+            elif annot:
+                exp = f"ok {min(l[0] for f in annot for l in f[2])} {max(l[1] for f in annot for l in f[2]) + 1}"
+                if got != exp:
+                    v.append(("C13/annotation/location-range", f"get_location_range of {_annot_s(annot)}: {got}, expected {exp}"))
+            if _annot_t(w.cur.annotation) != _annot_fs(annot):
+                v.append((f"C13/annotation/{t[0]}-content", f"after {op}: {_canon_annot(w.cur.annotation)}, expected {_annot_s(annot)}"))
+        elif t[0] in ("setslice", "setint"):
+            if t[0] == "setint":
+                p, x = int(t[1]), t[2]
+                valid = start <= p < end
+                lo, hi = p, p + 1
+            else:
+                a, b = (None if z == "-" else int(z) for z in t[1:3])
+                lo, hi = (start if a is None else a), (end if b is None else b)
+                x = "" if t[3] == "_" else t[3]
+                valid = start <= lo <= hi <= end and len(x) == hi - lo
+            got = w.step(op)
+            if valid:
+                new = letters[:lo - start] + x + letters[hi - start:]
+                if got != "ok" or str(w.cur.sequence) != new:
+                    v.append((f"C13/{t[0]}/bases", f"{op} on start {start} seq {letters}: {got}, sequence now {w.cur.sequence}, expected {new}"))
+                elif _canon_seq(w.cur[lo:hi].sequence) != (x or "_"):
+                    v.append((f"C13/{t[0]}/readback", f"{op} then aseq[{lo}:{hi}] gives {w.cur[lo:hi].sequence}"))
+                if _annot_t(w.cur.annotation) != _annot_fs(annot) or int(w.cur.sequence_start) != start:
+                    v.append((f"C13/{t[0]}/annotation-or-start-changed", f"{op}"))
+            letters = str(w.cur.sequence)
         elif t[0] == "revcomp":
-            k = int(t[1])
+            k = 1 if t[1] == "-" else int(t[1])
             before = _canon_aseq(w.cur)
             orig = w.cur
             got = w.step(op)
@@ -738,10 +1036,39 @@ def _rand_loc(rng, lo, hi, strand=None, defect=None):
 
 
 def _rand_annot(rng, lo, hi, nf=None):
+    """Features with unsorted, sometimes duplicated, touching, nested locations; sometimes the same feature twice; pairs of
+    locations that differ only in -1 / -2 (equal Python hashes) when the range allows."""
     out = []
     for _ in range(nf if nf is not None else rng.randint(1, 4)):
-        out.append((rng.randint(0, 3), rng.randint(0, 2), list(dict.fromkeys(_rand_loc(rng, lo, hi) for _ in range(rng.randint(1, 4))))))
+        locs = [_rand_loc(rng, lo, hi) for _ in range(rng.randint(1, 4))]
+        r = rng.random()
+        if r < 0.12:
+            locs.append(rng.choice(locs))                                   # duplicate (frozenset removes it)
+        elif r < 0.24 and locs[0][1] < hi:
+            locs.append((locs[0][1] + 1, min(hi, locs[0][1] + 2), locs[0][2], locs[0][3]))    # touching
+        elif r < 0.34 and lo <= -2 and hi >= 0:
+            l = rng.randint(0, hi)
+            locs += [(-1, l, "+", 0), (-2, l, "+", 0)] if rng.random() < 0.5 else [(lo, -1, "-", 1), (lo, -2, "-", 1)]
+        elif r < 0.42:
+            f, l, st, d = locs[0]
+            locs.append((f, l, "-" if st == "+" else "+", d))                 # same span, other strand
+        if rng.random() < 0.9:
+            locs = list(dict.fromkeys(locs))
+        out.append((rng.randint(0, 3), rng.randint(0, 2), locs))
+    if out and rng.random() < 0.1:
+        out.append(out[0])                                                   # the same feature twice
     return out
+
+
+def _bounds(rng, annot, lo, hi, extra=()):
+    """Slice bounds biased to the places where an off-by-one shows: location ends +-1, 0, -1, 1, the given limits."""
+    pool = [x for x in extra if lo <= x <= hi] + [x for x in (0, -1, 1) if lo <= x <= hi]
+    for _, _, locs in annot:
+        for f, l, _, _ in locs:
+            pool += [x for x in (f - 1, f, f + 1, l - 1, l, l + 1) if lo <= x <= hi]
+    if pool and rng.random() < 0.7:
+        return rng.choice(pool)
+    return rng.randint(lo, hi)
 
 
 def _disjoint_locs(rng, lo, hi, strand, kmax=4):
@@ -771,8 +1098,8 @@ def _gen_aslice(rng):
     ops = []
     for _ in range(5):
         r = rng.random()
-        a = rng.randint(-28, 44)
-        b = rng.randint(a, 46) if rng.random() < 0.85 else a + rng.choice([0, 1])
+        a = _bounds(rng, annot, -28, 44)
+        b = _bounds(rng, annot, a, 46) if rng.random() < 0.85 else a + rng.choice([0, 1])
         if r < 0.15:
             a = None
         elif r < 0.3:
@@ -796,8 +1123,8 @@ def _gen_slice(rng, overhang=False):
         annot = _rand_annot(rng, start, end - 1)
     ops = []
     for form in rng.sample(["ab", "a", "b", "", "ab", "ab"], 5):
-        a = rng.randint(start, end)
-        b = rng.randint(a, end)
+        a = _bounds(rng, annot, start, end, (start, end))
+        b = _bounds(rng, annot, a, end, (end,))
         if rng.random() < 0.2:
             b = end
         if rng.random() < 0.1:
@@ -837,8 +1164,9 @@ def _gen_revcomp(rng):
     n = rng.choice([0, 1, 3, 6, 10, 14])
     letters = _rand_seq(rng, n)
     annot = _rand_annot(rng, start - 4, start + n + 3) if rng.random() < 0.4 else (_rand_annot(rng, start, start + n - 1) if n else [])
-    k = rng.choice([1, 1, start, rng.randint(1, 50)])
+    k = rng.choice([1, "-", start, rng.randint(1, 50)])
     ops = [f"revcomp {k}", f"revcomp {start}", "show"]
+    k = 1 if k == "-" else k
     if n and annot and rng.random() < 0.5:
         ops.insert(1, f"slice {k + rng.randint(0, n // 2)} -")
     return _case("revcomp", start, letters, annot, ops)
@@ -859,6 +1187,69 @@ def _gen_copy(rng):
            "show", "cp_show", f"cp_setint {p} {c}", "show", "cp_show", f"cp_addfeat {_feat_s(f)}",
            f"cp_setf {_feat_s((0, 0, locs))} {''.join(rng.choice(alpha) for _ in range(total))}", "show", "cp_show"]
     return _case("copy", start, letters, annot, ops)
+
+
+def _gen_history(rng):
+    """ONE object through a history: reads, in-place edits of the annotation and of the sequence, refused calls, reads
+    again.  Every read is also compared with a fresh object of the same content (oracle, `_generic_checks`)."""
+    start = rng.choice([1, 1, 2, 7, rng.randint(1, 50)])
+    n = rng.choice([3, 5, 8, 12])
+    letters = _rand_seq(rng, n)
+    end = start + n
+    alpha = "ACGT" if set(letters) <= set("ACGT") else LETTERS
+    annot = _rand_annot(rng, start, end - 1, nf=rng.randint(1, 3))
+    pool = list(annot)
+    start0, annot0 = start, list(annot)
+
+    def reads():
+        a = _bounds(rng, annot, start, end, (start, end))
+        b = _bounds(rng, annot, a, end, (end,))
+        form = rng.choice(["ab", "ab", "a", "b", ""])
+        locs = _disjoint_locs(rng, start, end - 1, rng.choice("+-"), 3)
+        return [f"slice {_o(a if 'a' in form else None)} {_o(b if 'b' in form else None)}",
+                f"aslice {_o(a if rng.random() < 0.8 else None)} {_o(b)}", f"getf {_feat_s((0, 0, locs))}",
+                rng.choice(["count", "range", f"int {rng.randint(start, end - 1)}", f"has {_feat_s(rng.choice(pool))}"])]
+
+    ops = reads()
+    for _ in range(rng.randint(3, 5)):
+        r = rng.random()
+        if r < 0.2:
+            f = (rng.randint(0, 3), rng.randint(0, 2), list(dict.fromkeys(_rand_loc(rng, start, end - 1) for _ in range(rng.randint(1, 3)))))
+            pool.append(f)
+            ops.append(f"addfeat {_feat_s(f)}")
+        elif r < 0.3:
+            fs = [(rng.randint(0, 3), 2, [_rand_loc(rng, start, end - 1)]) for _ in range(rng.randint(1, 2))]
+            pool += fs
+            ops.append(f"iadd {_annot_s(fs)}")
+        elif r < 0.45:
+            ops.append(f"delfeat {_feat_s(rng.choice(pool))}")           # present, or already deleted -> KeyError
+        elif r < 0.55:
+            a = rng.randint(start, end)
+            b = rng.randint(a, end)
+            form = rng.choice(["ab", "ab", "a", "b"])
+            lo, hi = (a if "a" in form else start), (b if "b" in form else end)
+            x = "".join(rng.choice(alpha) for _ in range(hi - lo + (rng.choice([0, 0, 0, 1, 2]))))
+            ops.append(f"setslice {_o(a if 'a' in form else None)} {_o(b if 'b' in form else None)} {x or '_'}")
+        elif r < 0.65:
+            ops.append(f"setint {rng.randint(start - 1, end)} {rng.choice(alpha)}")   # the two ends are refused / wrap
+        elif r < 0.85:
+            locs = _disjoint_locs(rng, start, end - 1, rng.choice("+-"), 3)
+            total = sum(l - a + 1 for a, l, _, _ in locs)
+            x = "".join(rng.choice(alpha) for _ in range(total + rng.choice([0, 0, 0, -1, 2])))
+            ops.append(f"setf {_feat_s((0, 0, locs))} {x or '_'}")
+        elif r < 0.93:
+            ops.append(f"slice {start - rng.randint(1, 3)} {end}")          # refused: IndexError
+            l1, l2 = (start, start, "+", 0), (end - 1, end - 1, "-", 0)
+            ops.append(f"getf {_feat_s((0, 0, [l1, l2]))}")                 # refused: mixed strands
+        else:
+            k = rng.choice(["-", "-", str(start), str(rng.randint(1, 50))])
+            ops.append(f"revcomp {k}")
+            start = 1 if k == "-" else int(k)
+            end = start + n
+            annot, pool = [], [(0, 0, [(start, start, "+", 0)])]
+        ops += reads()
+    ops.append("show")
+    return _case("history", start0, letters, annot0, ops)
 
 
 def _gen_malformed(rng):
@@ -913,25 +1304,19 @@ def _exhaustive(max_len):
 
 def cases(rng, tier):
     quick = tier == "quick"
-    plan = [("aslice", 260), ("slice", 300), ("slice-overhang", 120), ("feature", 260), ("revcomp", 120), ("copy", 100), ("malformed", 140)]
+    plan = [("aslice", 260), ("slice", 300), ("slice-overhang", 120), ("feature", 260), ("revcomp", 120), ("copy", 100), ("malformed", 140),
+            ("history", 200)]
     mult = 3 if quick else 40
+    gens = {"aslice": _gen_aslice, "slice": _gen_slice, "slice-overhang": lambda r: _gen_slice(r, overhang=True), "feature": _gen_feature,
+            "revcomp": _gen_revcomp, "copy": _gen_copy, "malformed": _gen_malformed, "history": _gen_history}
     for kind, cnt in plan:
         for _ in range(cnt * mult):
-            if kind == "aslice":
-                yield _gen_aslice(rng)
-            elif kind == "slice":
-                yield _gen_slice(rng)
-            elif kind == "slice-overhang":
-                yield _gen_slice(rng, overhang=True)
-            elif kind == "feature":
-                yield _gen_feature(rng)
-            elif kind == "revcomp":
-                yield _gen_revcomp(rng)
-            elif kind == "copy":
-                yield _gen_copy(rng)
-            else:
-                yield _gen_malformed(rng)
-    yield from _exhaustive(4 if quick else 6)
+            c = gens[kind](rng)
+            c["spell"] = rng.randrange(420)        # how the same arguments are spelled on the implementation side
+            yield c
+    for i, c in enumerate(_exhaustive(4 if quick else 6)):
+        c["spell"] = i % 420
+        yield c
 
 
 def corpus():
